@@ -267,6 +267,11 @@ def classify(kind, q, msgs):
 def search(ctx, boost=1, focus=()):
     rng = np.random.default_rng(ctx.seed + 1001)
     n = (180 if ctx.tier == "thorough" else 36) * boost
+    # known finding D15, pinned (the input it was first seen on)
+    q = {"pattern": {"kind": "rgbs", "radius": 2.0, "radius_outer": 3.25, "search": 4.75}, "shape": [44, 29], "p": [16, 12],
+         "amp": 3.0, "bg": 20.0, "seed": 15, "upsample": [20]}
+    msgs = run_case("disk", q)
+    ctx.oracle_case("disk", q, msgs, key=classify("disk", q, msgs) if msgs else None, nontrivial=True)
     for k in range(n):
         q = gen_case(rng, k)
         msgs = run_case("disk", q)
